@@ -14,6 +14,7 @@ structure Mon where
   okPair : Bool := true
   okQuiet : Bool := true
   okEof : Bool := true
+  okSyn : Bool := true                    -- synthetic EOF (no buffer) only when everything was delivered
 
 /-- does read_cb(n) end the reading session?  any negative nread except the UV_ENOBUFS that answers
     an alloc_cb refusal (buffer of size 0) -/
@@ -33,6 +34,7 @@ def Mon.step (m : Mon) : Ev → Mon
              okPair := m.okPair && (buf == m.pending.map (·.1))
              okQuiet := m.okQuiet && !m.quiet
              okEof := m.okEof && (!(n == UV_EOF) || buf.isNone || (m.deliv == m.sentB && m.shut))
+             okSyn := m.okSyn && (!(n == UV_EOF) || buf.isSome || m.deliv == m.sentB)
              quiet := m.quiet || quieting n m.pending }
   | .ret op c =>
     { m with okPair := m.okPair && m.pending.isNone
@@ -48,8 +50,8 @@ theorem mon_snoc (tr : List Ev) (e : Ev) : mon (tr ++ [e]) = (mon tr).step e := 
   simp [mon_append]
 
 /-- coupling between the automaton after `tr` and the model state components -/
-structure C (err : Bool) (tr : List Ev) (kbuf : List Byte) (peerShut : Bool) (nAlloc : Nat)
-    (readable reading : Bool) : Prop where
+structure C (err : Bool) (ipc0 syn : Bool) (tr : List Ev) (kbuf : List Byte) (peerShut : Bool) (nAlloc : Nat)
+    (readable reading ipc : Bool) : Prop where
   okPair : (mon tr).okPair = true
   okQuiet : (mon tr).okQuiet = true
   okEof : (mon tr).okEof = true
@@ -58,21 +60,25 @@ structure C (err : Bool) (tr : List Ev) (kbuf : List Byte) (peerShut : Bool) (nA
   shut : (mon tr).shut = peerShut
   nal : (mon tr).nAl = nAlloc
   q : if err then ((mon tr).quiet = true ∧ readable = false) else (mon tr).quiet = !reading
+  okSyn : syn = true → (mon tr).okSyn = true
+  ipcEq : ipc = ipc0
 
-def Coupled (err : Bool) (s : St) : Prop :=
-  C err s.trace s.kbuf s.peerShut s.nAlloc s.readable s.reading
+def Coupled (err : Bool) (ipc0 syn : Bool) (s : St) : Prop :=
+  C err ipc0 syn s.trace s.kbuf s.peerShut s.nAlloc s.readable s.reading s.ipc
 
-theorem coupled_init : Coupled false init := by
-  constructor <;> simp [init, mon]
+variable {i0 syn : Bool}
 
-theorem coupled_doOp (b : Bool) (s : St) (op : CbOp) (h : Coupled b s) : Coupled b (doOp s op) := by
-  obtain ⟨h1, h2, h3, h4, h5, h6, h7, h8⟩ := h
+theorem coupled_start (ipc : Bool) : Coupled false ipc syn (start ipc) := by
+  constructor <;> simp [start, mon]
+
+theorem coupled_doOp (b : Bool) (s : St) (op : CbOp) (h : Coupled b i0 syn s) : Coupled b i0 syn (doOp s op) := by
+  obtain ⟨h1, h2, h3, h4, h5, h6, h7, h8, h9, h10⟩ := h
   cases op <;> cases b <;>
     simp only [doOp, readStop, readStart, closeH, emit, UV_EINVAL, UV_EALREADY, UV_ENOTCONN] <;>
     (repeat' split) <;>
     (constructor <;> simp_all [mon_append, Mon.step])
 
-theorem coupled_runOps (b : Bool) (ops : List CbOp) : ∀ (s : St), Coupled b s → Coupled b (runOps s ops) := by
+theorem coupled_runOps (b : Bool) (ops : List CbOp) : ∀ (s : St), Coupled b i0 syn s → Coupled b i0 syn (runOps s ops) := by
   induction ops with
   | nil => intro s h; exact h
   | cons o t ih => intro s h; exact ih _ (coupled_doOp b s o h)
@@ -115,13 +121,13 @@ theorem kread_ok (kbuf : List Byte) (shut : Bool) (cap : Nat) (o : Option Outcom
 
 
 theorem coupled_callReadCb (u : User) (b : Bool) (s : St) (n : Int) (buf : Option Nat) (bytes : List Byte)
-    (h : Coupled b (emit { s with nCb := s.nCb + 1 } (.readCb n buf bytes))) :
-    Coupled b (callReadCb u s n buf bytes) := by
+    (h : Coupled b i0 syn (emit { s with nCb := s.nCb + 1 } (.readCb n buf bytes))) :
+    Coupled b i0 syn (callReadCb u s n buf bytes) := by
   unfold callReadCb
   exact coupled_runOps b _ _ h
 
 /-- state right after the `alloc` event of a round, before its read_cb -/
-structure CP (tr : List Ev) (kbuf0 : List Byte) (peerShut : Bool) (nAlloc : Nat) (id sz : Nat) : Prop where
+structure CP (syn : Bool) (tr : List Ev) (kbuf0 : List Byte) (peerShut : Bool) (nAlloc : Nat) (id sz : Nat) : Prop where
   okPair : (mon tr).okPair = true
   okQuiet : (mon tr).okQuiet = true
   okEof : (mon tr).okEof = true
@@ -130,12 +136,13 @@ structure CP (tr : List Ev) (kbuf0 : List Byte) (peerShut : Bool) (nAlloc : Nat)
   shut : (mon tr).shut = peerShut
   nal : (mon tr).nAl = nAlloc
   q : (mon tr).quiet = false
+  okSyn : syn = true → (mon tr).okSyn = true
 
 theorem coupled_afterRead (u : User) (s : St) (id sz : Nat) (kbuf0 : List Byte) (r : RRes)
-    (h : CP s.trace kbuf0 s.peerShut s.nAlloc id sz) (hr : s.reading = true) (hsz : sz ≠ 0)
+    (h : CP syn s.trace kbuf0 s.peerShut s.nAlloc id sz) (hi : s.ipc = i0) (hr : s.reading = true) (hsz : sz ≠ 0)
     (hk : KOk kbuf0 s.peerShut sz (r, s.kbuf)) :
-    Coupled false (afterRead u s id sz r).1 := by
-  obtain ⟨h1, h2, h3, h4, h5, h6, h7, h8⟩ := h
+    Coupled false i0 syn (afterRead u s id sz r).1 := by
+  obtain ⟨h1, h2, h3, h4, h5, h6, h7, h8, h9⟩ := h
   cases r with
   | eagain =>
     simp only [KOk] at hk
@@ -147,10 +154,10 @@ theorem coupled_afterRead (u : User) (s : St) (id sz : Nat) (kbuf0 : List Byte) 
     simp only [afterRead]
     have hneg : (-(e : Int)) < 0 := by omega
     have hne : ¬ (-(e : Int)) = -4095 := by omega
-    have hc : Coupled true (callReadCb u { s with readable := false, writable := false } (-(e : Int)) (some id) []) := by
+    have hc : Coupled true i0 syn (callReadCb u { s with readable := false, writable := false } (-(e : Int)) (some id) []) := by
       apply coupled_callReadCb
       constructor <;> simp_all [emit, mon_append, Mon.step, quieting, UV_ENOBUFS, UV_EOF]
-    obtain ⟨c1, c2, c3, c4, c5, c6, c7, c8⟩ := hc
+    obtain ⟨c1, c2, c3, c4, c5, c6, c7, c8, c9, c10⟩ := hc
     simp only [if_true] at c8
     split <;> (constructor <;> simp_all)
   | eof =>
@@ -164,15 +171,17 @@ theorem coupled_afterRead (u : User) (s : St) (id sz : Nat) (kbuf0 : List Byte) 
     have hpos : (0 : Int) < (bs.length : Int) := by
       have : bs.length ≠ 0 := by intro h0; exact hk.1 (List.length_eq_zero_iff.mp h0)
       omega
-    have hc : Coupled false (callReadCb u s bs.length (some id) bs) := by
+    have hc : Coupled false i0 syn (callReadCb u s bs.length (some id) bs) := by
       apply coupled_callReadCb
       obtain ⟨k1, k2, k3⟩ := hk
       constructor <;> simp_all [emit, mon_append, Mon.step, quieting, UV_ENOBUFS, UV_EOF]
-    split <;> exact hc
+    have hc' : Coupled false i0 syn { callReadCb u s bs.length (some id) bs with readPartial := true } := hc
+    repeat' split
+    all_goals first | exact hc | exact hc'
 
-theorem coupled_readRound (u : User) (s : St) (h : Coupled false s) (hr : s.reading = true) :
-    Coupled false (readRound u s).1 := by
-  obtain ⟨h1, h2, h3, h4, h5, h6, h7, h8⟩ := h
+theorem coupled_readRound (u : User) (s : St) (h : Coupled false i0 syn s) (hr : s.reading = true) :
+    Coupled false i0 syn (readRound u s).1 := by
+  obtain ⟨h1, h2, h3, h4, h5, h6, h7, h8, h9, h10⟩ := h
   simp only [Bool.false_eq_true, if_false] at h8
   unfold readRound
   by_cases hz : u.allocS s.nAlloc = 0
@@ -182,12 +191,13 @@ theorem coupled_readRound (u : User) (s : St) (h : Coupled false s) (hr : s.read
   · simp only [hz, if_false]
     apply coupled_afterRead u _ _ _ s.kbuf
     · constructor <;> simp_all [emit, mon_append, Mon.step]
+    · simpa [emit] using h10
     · simpa [emit] using hr
     · exact hz
     · simpa [emit] using kread_ok s.kbuf s.peerShut (u.allocS s.nAlloc) (skipEintr s.oracle).2.1
 
 
-theorem coupled_readLoop (u : User) : ∀ (count : Nat) (s : St), Coupled false s → Coupled false (readLoop u count s) := by
+theorem coupled_readLoop (u : User) : ∀ (count : Nat) (s : St), Coupled false i0 syn s → Coupled false i0 syn (readLoop u count s) := by
   intro count
   induction count with
   | zero => intro s h; simpa [readLoop] using h
@@ -204,64 +214,90 @@ theorem coupled_readLoop (u : User) : ∀ (count : Nat) (s : St), Coupled false 
       · exact ih _ h'
       · exact h'
 
-theorem coupled_uvRead (u : User) (s : St) (h : Coupled false s) : Coupled false (uvRead u s) :=
+theorem coupled_uvRead (u : User) (s : St) (h : Coupled false i0 syn s) : Coupled false i0 syn (uvRead u s) :=
   coupled_readLoop u 32 _ h
 
-theorem coupled_streamIo (u : User) (s : St) (ev : PollEv) (h : Coupled false s) : Coupled false (streamIo u s ev) := by
-  unfold streamIo
-  have h1 : Coupled false (if (ev.inn || ev.err || ev.hup) = true then uvRead u s else s) := by
-    split
-    · exact coupled_uvRead u s h
-    · exact h
-  revert h1
-  generalize (if (ev.inn || ev.err || ev.hup) = true then uvRead u s else s) = s1
-  intro h1
-  simp only
-  split
-  · exact h1
-  · split
-    · rename_i hsyn
-      simp only [streamEof]
-      apply coupled_callReadCb
-      obtain ⟨c1, c2, c3, c4, c5, c6, c7, c8⟩ := h1
-      simp at hsyn
-      constructor <;> simp_all [emit, mon_append, Mon.step, quieting, UV_ENOBUFS, UV_EOF]
-    · exact h1
+/-- uv__read leaves READ_PARTIAL set only with an empty kernel buffer -/
+def Drain (u : User) (s : St) : Prop := (uvRead u s).readPartial = true → (uvRead u s).kbuf = []
 
-theorem coupled_ioPoll (u : User) (s : St) (ev : PollEv) (h : Coupled false s) : Coupled false (ioPoll u s ev) := by
+/-- environment condition on the read outcomes of one loop iteration (see `pollOK_ipc`, `pollOK_noShort`) -/
+def PollOK (u : User) (ipc : Bool) (reads : List Outcome) : Prop :=
+  ∀ s : St, s.ipc = ipc → s.oracle = reads → Drain u s
+
+theorem coupled_streamIo (u : User) (s : St) (ev : PollEv) (h : Coupled false i0 syn s) (hD : syn = true → Drain u s) :
+    Coupled false i0 syn (streamIo u s ev) := by
+  unfold streamIo
+  by_cases hc : (ev.inn || ev.err || ev.hup) = true
+  · simp only [hc, if_true]
+    have h1 := coupled_uvRead u s h
+    simp only [Drain] at hD
+    revert h1 hD
+    generalize uvRead u s = s1
+    intro hD h1
+    split
+    · exact h1
+    · split
+      · rename_i hsyn
+        simp only [streamEof]
+        apply coupled_callReadCb
+        obtain ⟨c1, c2, c3, c4, c5, c6, c7, c8, c9, c10⟩ := h1
+        simp at hsyn
+        have hk : syn = true → s1.kbuf = [] := fun hs => hD hs hsyn.1.2
+        constructor <;> simp_all [emit, mon_append, Mon.step, quieting, UV_ENOBUFS, UV_EOF]
+      · exact h1
+  · have hh : ev.hup = false := by
+      cases hv : ev.hup <;> simp_all
+    rw [if_neg hc]
+    simp only [hh]
+    split
+    · exact h
+    · simpa using h
+
+theorem coupled_ioPoll (u : User) (s : St) (ev : PollEv) (h : Coupled false i0 syn s) (hD : syn = true → Drain u s) :
+    Coupled false i0 syn (ioPoll u s ev) := by
   unfold ioPoll
   simp only
   repeat' split
-  all_goals first | exact h | exact coupled_streamIo u s _ h
+  all_goals first | exact h | exact coupled_streamIo u s _ h hD
 
-theorem coupled_stepOp (u : User) (s : St) (op : Op) (h : Coupled false s) : Coupled false (stepOp u s op) := by
+/-- condition on a main program: every loop iteration's read outcomes are acceptable -/
+def OpsOK (u : User) (ipc : Bool) (ops : List Op) : Prop :=
+  ∀ ev reads, Op.poll ev reads ∈ ops → PollOK u ipc reads
+
+theorem coupled_stepOp (u : User) (s : St) (op : Op) (h : Coupled false i0 syn s) (hok : syn = true → OpsOK u i0 [op]) :
+    Coupled false i0 syn (stepOp u s op) := by
   cases op with
   | start => exact coupled_doOp false s .start h
   | stop => exact coupled_doOp false s .stop h
   | close => exact coupled_doOp false s .close h
   | poll ev reads =>
     simp only [stepOp, runClosing]
-    have h1 : Coupled false (ioPoll u { s with oracle := reads } ev) := coupled_ioPoll u _ ev h
+    have hD : syn = true → Drain u { s with oracle := reads } := fun hs => hok hs ev reads (by simp) _ h.ipcEq rfl
+    have h1 : Coupled false i0 syn (ioPoll u { s with oracle := reads } ev) := coupled_ioPoll u _ ev h hD
     split
-    · obtain ⟨c1, c2, c3, c4, c5, c6, c7, c8⟩ := h1
+    · obtain ⟨c1, c2, c3, c4, c5, c6, c7, c8, c9, c10⟩ := h1
       constructor <;> simp_all [emit, mon_append, Mon.step]
     · exact h1
   | peerW bytes =>
     simp only [stepOp]
     split
     · exact h
-    · obtain ⟨c1, c2, c3, c4, c5, c6, c7, c8⟩ := h
+    · obtain ⟨c1, c2, c3, c4, c5, c6, c7, c8, c9, c10⟩ := h
       constructor <;> simp_all [emit, mon_append, Mon.step]
   | peerShut =>
     simp only [stepOp]
-    obtain ⟨c1, c2, c3, c4, c5, c6, c7, c8⟩ := h
+    obtain ⟨c1, c2, c3, c4, c5, c6, c7, c8, c9, c10⟩ := h
     constructor <;> simp_all [emit, mon_append, Mon.step]
 
-theorem coupled_exec (u : User) (ops : List Op) : ∀ s, Coupled false s → Coupled false (exec u s ops) := by
+theorem coupled_exec (u : User) (ops : List Op) : ∀ s, Coupled false i0 syn s → (syn = true → OpsOK u i0 ops) →
+    Coupled false i0 syn (exec u s ops) := by
   induction ops with
-  | nil => intro s h; exact h
-  | cons o t ih => intro s h; exact ih _ (coupled_stepOp u s o h)
-
+  | nil => intro s h _; exact h
+  | cons o t ih =>
+    intro s h hok
+    refine ih _ (coupled_stepOp u s o h ?_) ?_
+    · intro hs ev reads hm; exact hok hs ev reads (by simp at hm; simp [hm])
+    · intro hs ev reads hm; exact hok hs ev reads (List.mem_cons_of_mem _ hm)
 
 /-! generic facts about the automaton -/
 
@@ -309,6 +345,15 @@ theorem fold_okQuiet (l : List Ev) : ∀ m : Mon, (l.foldl Mon.step m).okQuiet =
     cases e <;> simp [Mon.step] at h1 <;> simp_all
 
 theorem fold_okEof (l : List Ev) : ∀ m : Mon, (l.foldl Mon.step m).okEof = true → m.okEof = true := by
+  induction l with
+  | nil => intro m h; exact h
+  | cons e t ih =>
+    intro m h
+    have h1 := ih _ h
+    clear h ih
+    cases e <;> simp [Mon.step] at h1 <;> simp_all
+
+theorem fold_okSyn (l : List Ev) : ∀ m : Mon, (l.foldl Mon.step m).okSyn = true → m.okSyn = true := by
   induction l with
   | nil => intro m h; exact h
   | cons e t ih =>
@@ -401,10 +446,15 @@ theorem kread_noshort (kbuf : List Byte) (shut : Bool) (sz : Nat) (o : Option Ou
     | eintr => simp at h
     | err e => simp only at h; split at h <;> simp at h
 
-theorem readRound_facts (u : User) (K : Nat) (hA : ∀ i, u.allocS i ≤ K) (s : St)
-    (hp : s.readPartial = false) (hO : NoShort K s.oracle) :
+/-- the environment condition under which a hang-up loses nothing: an IPC pipe (READ_PARTIAL is never
+    set), or a kernel that hands over min(buffer, available) bytes on every successful read -/
+def EnvOK (u : User) (K : Nat) (ipc : Bool) (l : List Outcome) : Prop :=
+  ipc = true ∨ ((∀ i, u.allocS i ≤ K) ∧ NoShort K l)
+
+theorem readRound_facts (u : User) (K : Nat) (s : St)
+    (hp : s.readPartial = false) (H : EnvOK u K s.ipc s.oracle) :
     (readRound u s).1.nAlloc = s.nAlloc + 1 ∧ (readRound u s).1.ipc = s.ipc ∧
-    NoShort K (readRound u s).1.oracle ∧
+    (∀ o, o ∈ (readRound u s).1.oracle → o ∈ s.oracle) ∧
     ((readRound u s).2 = true → (readRound u s).1.readPartial = false) ∧
     ((readRound u s).1.readPartial = true → (readRound u s).1.kbuf = [] ∧ s.ipc = false) := by
   unfold readRound
@@ -416,10 +466,16 @@ theorem readRound_facts (u : User) (K : Nat) (hA : ∀ i, u.allocS i ≤ K) (s :
     simp_all
   · simp only [hz, if_false]
     have hm := skipEintr_mem s.oracle
-    have hO' : NoShort K (skipEintr s.oracle).2.2 := fun o ho k hk => hO o (hm.2 o ho) k hk
-    have ho : ∀ k, (skipEintr s.oracle).2.1 = some (.ok k) → u.allocS s.nAlloc ≤ k :=
-      fun k hk => Nat.le_trans (hA _) (hO _ (hm.1 _ hk) k rfl)
-    have hns := kread_noshort s.kbuf s.peerShut (u.allocS s.nAlloc) (skipEintr s.oracle).2.1 ho
+    have ho : s.ipc = false → ∀ k, (skipEintr s.oracle).2.1 = some (.ok k) → u.allocS s.nAlloc ≤ k := by
+      intro hi k hk
+      rcases H with H | ⟨hA, hO⟩
+      · rw [hi] at H; cases H
+      · exact Nat.le_trans (hA _) (hO _ (hm.1 _ hk) k rfl)
+    have hns : s.ipc = false → ∀ bs, (kread s.kbuf s.peerShut (u.allocS s.nAlloc) (skipEintr s.oracle).2.1).1 = .data bs →
+        bs.length < u.allocS s.nAlloc → (kread s.kbuf s.peerShut (u.allocS s.nAlloc) (skipEintr s.oracle).2.1).2 = [] :=
+      fun hi => kread_noshort s.kbuf s.peerShut (u.allocS s.nAlloc) (skipEintr s.oracle).2.1 (ho hi)
+    have hsub := hm.2
+    clear ho
     revert hns
     generalize kread s.kbuf s.peerShut (u.allocS s.nAlloc) (skipEintr s.oracle).2.1 = kr
     obtain ⟨r, kb⟩ := kr
@@ -446,17 +502,15 @@ theorem readRound_facts (u : User) (K : Nat) (hA : ∀ i, u.allocS i ≤ K) (s :
       simp only [afterRead]
       have h := same_callReadCb u { s with nAlloc := s.nAlloc + 1, trace := s.trace ++ [.alloc s.nAlloc (u.allocS s.nAlloc)], oracle := (skipEintr s.oracle).2.2, nSys := s.nSys + (skipEintr s.oracle).1, kbuf := kb } bs.length (some s.nAlloc) bs
       simp only [Same] at h
-      have hns' := hns bs rfl
-      split
-      · rename_i hsh
-        simp at hsh
-        simp_all
-      · simp_all
+      cases hi : s.ipc
+      · have hns' := hns hi bs rfl
+        split
+        · simp_all
+        · simp_all
+      · split <;> simp_all
 
-
-theorem readLoop_facts (u : User) (K : Nat) (hA : ∀ i, u.allocS i ≤ K) :
-    ∀ (count : Nat) (s : St), s.readPartial = false → NoShort K s.oracle →
-      (readLoop u count s).nAlloc ≤ s.nAlloc + count ∧ (readLoop u count s).ipc = s.ipc ∧
+theorem readLoop_facts (u : User) (K : Nat) :
+    ∀ (count : Nat) (s : St), s.readPartial = false → EnvOK u K s.ipc s.oracle →
       ((readLoop u count s).readPartial = true → (readLoop u count s).kbuf = [] ∧ s.ipc = false) := by
   intro count
   induction count with
@@ -467,21 +521,27 @@ theorem readLoop_facts (u : User) (K : Nat) (hA : ∀ i, u.allocS i ≤ K) :
     by_cases hc : (!(s.hasCb && s.reading)) = true
     · simp only [hc, if_true]; simp [hp]
     · simp only [hc]
-      obtain ⟨f1, f2, f3, f4, f5⟩ := readRound_facts u K hA s hp hO
+      obtain ⟨f1, f2, f3, f4, f5⟩ := readRound_facts u K s hp hO
       simp only [Bool.false_eq_true, if_false]
       split
       · rename_i hcont
-        obtain ⟨g1, g2, g3⟩ := ih _ (f4 hcont) f3
-        refine ⟨by omega, by rw [g2, f2], ?_⟩
-        intro hh; have := g3 hh; rw [f2] at this; exact this
-      · exact ⟨by omega, f2, f5⟩
+        have hO' : EnvOK u K (readRound u s).1.ipc (readRound u s).1.oracle := by
+          rw [f2]
+          rcases hO with h | ⟨hA, hN⟩
+          · exact Or.inl h
+          · exact Or.inr ⟨hA, fun o ho k hk => hN o (f3 o ho) k hk⟩
+        intro hh; have := ih _ (f4 hcont) hO' hh; rw [f2] at this; exact this
+      · exact f5
 
-
-theorem partial_implies_drained (u : User) (K : Nat) (hA : ∀ i, u.allocS i ≤ K) (s : St)
-    (hO : NoShort K s.oracle) :
+theorem partial_implies_drained (u : User) (K : Nat) (s : St) (H : EnvOK u K s.ipc s.oracle) :
     (uvRead u s).readPartial = true → (uvRead u s).kbuf = [] ∧ s.ipc = false := by
-  have h := (readLoop_facts u K hA 32 { s with readPartial := false } rfl hO).2.2
+  have h := readLoop_facts u K 32 { s with readPartial := false } rfl H
   simpa [uvRead] using h
+
+theorem pollOK_of_envOK (u : User) (K : Nat) (ipc : Bool) (reads : List Outcome) (H : EnvOK u K ipc reads) :
+    PollOK u ipc reads := by
+  intro s hi ho hp
+  exact (partial_implies_drained u K s (by rw [hi, ho]; exact H) hp).1
 
 theorem afterRead_nAlloc (u : User) (s : St) (id sz : Nat) (r : RRes) :
     (afterRead u s id sz r).1.nAlloc = s.nAlloc := by
@@ -507,7 +567,8 @@ theorem afterRead_nAlloc (u : User) (s : St) (id sz : Nat) (r : RRes) :
     simp only [afterRead]
     have h := same_callReadCb u s bs.length (some id) bs
     simp only [Same] at h
-    split <;> simp_all
+    repeat' split
+    all_goals simp_all
 
 theorem readRound_nAlloc (u : User) (s : St) : (readRound u s).1.nAlloc = s.nAlloc + 1 := by
   unfold readRound
